@@ -2161,7 +2161,6 @@ impl<'a> Eval<'a> {
             bad = true;
             self.out.violation(&req0, "get_param() keeps returning values: more than 300 from a signature of at most 255 types");
         }
-        let h = c.args.iter().any(|a| !a.starts_with('@') && a.contains('h') && a.len() < 256 && Ty::parse(a).is_some() || false);
         match c.kind.as_str() {
             "dec" if !obs.is_empty() => {
                 let v = field(&obs, "V").unwrap_or("?").to_string();
@@ -2296,7 +2295,6 @@ impl<'a> Eval<'a> {
             }
             _ => {}
         }
-        let _ = h;
         // the correspondence cases
         for (req, key) in &reqs {
             let o = if obs.is_empty() {
